@@ -536,16 +536,20 @@ impl BuiltInFunction {
                     unreachable!()
                 };
 
+                let index: usize = (*bottom).try_into().with_context(|| {
+                    format!("string insertion index `{bottom}` could not be used to index (usize)")
+                })?;
+
+                if !original.is_char_boundary(index) {
+                    bail!(
+                        "string insertion index `{index}` is not valid for a string of length {}",
+                        original.len()
+                    )
+                }
+
                 let mut result = original.clone();
 
-                result.insert_str(
-                    (*bottom).try_into().with_context(|| {
-                        format!(
-                            "string insertion index `{bottom}` could not be used to index (usize)"
-                        )
-                    })?,
-                    new,
-                );
+                result.insert_str(index, new);
                 Ok((Some(Primitive::Str(result)), None))
             }
             Self::StrReplace => {
